@@ -141,7 +141,7 @@ package ps
 //@   assert [congruent] prodAll(a, m) == prodAll(b, m)
 //@
 //@ func lagrangeCoefficient
-//@   props C10 C18
+//@   props C10 C18 C08
 //@   requires curveOK() && len(evaluationPoints) >= 2
 //@   requires [distinct] forall a int, b int :: 0 <= a && a < b && b < len(evaluationPoints) ==> evaluationPoints[a] != evaluationPoints[b]
 //@   modifies nothing
@@ -219,7 +219,7 @@ package ps
 //@ spec func aggG2(pk seq[G2], a seq[int], n int, z G2, k int) G2 = ite(k <= 0, z, g2add(aggG2(pk, a, n, z, k-1), g2mul(pk[a[k-1]-1], lagSpec(a, a[k-1], n))))
 //@
 //@ func localAggregateECPoints
-//@   props C10 C18
+//@   props C10 C18 C08
 //@   requires curveOK() && len(evaluationPoints) >= 2
 //@   requires [keys]     forall m int :: 0 <= m && m < len(points) ==> points[m] != nil
 //@   requires [points]   forall a int :: 0 <= a && a < len(evaluationPoints) ==> 1 <= evaluationPoints[a] && evaluationPoints[a] <= len(points)
